@@ -126,6 +126,35 @@ def run(ctx):
             ctx.case(None, ("generic", k, name))
             compare(ctx, viol, name, ref[name], obs[name], max(5e-5, 60 * ulp) * (30 if name in ("phi", "psi", "chi1", "angles") else 1), rp, "rigid-generic")
 
+    # ---- the moved coordinates handed over to a trajectory object with a history (centred, superposed, sliced), in place or through the
+    # setter: what an observable gives depends on the coordinates it is given, not on what was done to the object before
+    for k in range(ctx.n(10, 40)):
+        R = R24[rng.randrange(0, 24)]
+        tvec = np.array([rng.choice([1, -3, 37, -256]) + rng.randrange(0, 1024) / 1024.0 for _ in range(3)])
+        new = (base.xyz.astype(np.float64) @ R.T + tvec).astype(np.float32)
+        carrier = md.Trajectory(base.xyz.copy(), base.topology)
+        hist = ["center", "center+superpose", "superpose", "center+slice", "rmsd"][k % 5]
+        if "center" in hist:
+            carrier.center_coordinates()
+        if "superpose" in hist:
+            carrier.superpose(carrier, 0)
+        if hist == "rmsd":
+            md.rmsd(carrier, carrier, 0)
+        if "slice" in hist:
+            carrier = carrier[:]
+        how = ["in-place", "setter"][(k // 5) % 2]
+        if how == "in-place":
+            carrier.xyz[:] = new
+        else:
+            carrier.xyz = new
+        rp = dict(transform="rotation %s then translation %s, written %s into a trajectory after %s" % (R.tolist(), tvec.tolist(), how, hist))
+        obs = observables(md, carrier)
+        ulp = float(np.spacing(np.float32(np.abs(new).max())))
+        for name in ref:
+            ctx.case(None, ("history", k, name))
+            compare(ctx, viol, name, ref[name], obs[name], max(2e-5, 40 * ulp), rp, "rigid-history")
+        ctx.count("moved coordinates written into a trajectory with a history")
+
     # ---- periodic systems: per-atom lattice shifts and whole-system translation
     collected = []
     for k in range(ctx.n(12, 100)):
